@@ -469,7 +469,7 @@ def childAtL (d : LDoc) : Sel → Option LDoc
   | Sel.key k =>
     match d with
     | .obj _ _ s => (slotFindL k s).bind nonUndefL
-    | .arr _ _ items => (items[fastStrToNum k]?).bind nonUndefL
+    | .arr _ _ items => (arrayKeyIndex k).bind (fun i => (items[i]?).bind nonUndefL)
     | _ => none
   | Sel.idx i =>
     match d with
@@ -506,7 +506,10 @@ def setChildL (d : LDoc) (s : Sel) (x : LDoc) : LDoc :=
       match sl[i]? with
       | some (some (kid, k, _)) => .obj b c (sl.set i (some (kid, k, x)))
       | _ => d
-  | .arr b c items, Sel.key k => .arr b c (setIdxPure (fastStrToNum k) x items)
+  | .arr b c items, Sel.key k =>
+      match arrayKeyIndex k with
+      | some i => .arr b c (setIdxPure i x items)
+      | none => d
   | .arr b c items, Sel.idx i => .arr b c (setIdxPure i x items)
   | _, _ => d
 
